@@ -113,6 +113,7 @@ def run(ctx):
         violations.append({"replay": rp, "no_input": True})
     else:
         nb = 0
+        nbi = 0
         feats = {"ep": 0, "rights": 0, "four_field": 0, "black_to_move": 0}
         for f, e, v in zip(fens, eng, vals):
             v = B.norm(v)
@@ -130,12 +131,30 @@ def run(ctx):
                 problem = "the engine's reader panics on a valid FEN"
             else:
                 names = (["turn", "fullmove", "ep"] + ["bb%d" % i for i in range(15)] + ["zkey", "scratch_key"])
+                internal_only = None
                 for nm, a, b in zip(names, e[0], st[0]):
                     if a != b:
+                        if nm in ("zkey", "scratch_key"):
+                            # the numeric key is not fixed by the FEN (C04 judges that it is the key of the same position reached by play)
+                            internal_only = internal_only or "key differs from the model key: engine %s model %s" % (a, b)
+                            continue
                         problem = "loaded position differs from the model in %s: engine %s model %s" % (nm, a, b)
                         break
                 if problem is None and e[1] != st[1]:
-                    problem = "undo record (clock / rights / double-push flag) differs: engine %s model %s" % (e[1], st[1])
+                    pe = [[r_[5] & 4] + r_[6:8] for r_ in e[1]]
+                    pm = [[r_[5] & 4] + r_[6:8] for r_ in st[1]]
+                    if pe != pm:
+                        problem = "undo record (clock / rights / double-push flag) differs: engine %s model %s" % (e[1], st[1])
+                    else:
+                        internal_only = internal_only or "the synthetic undo record differs in fields that carry no content of the FEN: engine %s model %s" % (e[1], st[1])
+                if problem is None and internal_only and agrees == 1:
+                    nbi += 1
+                    if nbi <= 2:
+                        rp = C.write_replay(prop, {"kind": "FEN load", "fen": f, "problem": internal_only,
+                                                   "broken": "correspondence engine reader = model/Fen.v on an observable the FEN does not fix; pieces, side, rights, "
+                                                             "en-passant file and counters agree with the independent reader",
+                                                   "replay_cmd": "printf '%s\\n' | %s verif fen" % (f, C.ENGINE)})
+                        violations.append({"replay": rp, "no_input": True})
                 if problem is None and e[2] != []:
                     problem = "a freshly loaded position remembers earlier positions"
             if problem is None and agrees != 1:
